@@ -40,7 +40,7 @@ Proof. exact insert_after_shutdown_v2. Qed.
 Print Assumptions C15_late_caller_gets_error_v2.
 
 (* V1: known finding D2 — the closed channel makes blocked and later senders panic *)
-Definition d2_cfg : cfg := mkCfg V1 1 false false 0 0 0 0 0 0 [mkW 0 0 0] 0 0.
+Definition d2_cfg : cfg := mkCfg V1 1 false false 0 0 0 0 0 0 [mkW 0 0 0] 0 0 0.
 Definition d2_enq (obj : nat) : label := AEnqueue (mkE false (Some 0%nat) obj 1 1 true 0 false).
 Theorem C15_shutdown_releases_v1_refuted :
   exists s os, run d2_cfg (init d2_cfg)
